@@ -487,10 +487,9 @@ func (p *Proxy) findBackendByDialog(msg *Message) (Backend, ServerTransport, err
 		return nil, nil, err
 	}
 
-	// no dialog for INVITE and SUBSCRIBE message because they initialize the dialog
-	if method == "INVITE" || method == "SUBSCRIBE" {
-		return nil, nil, fmt.Errorf("no dialog for request %s", method)
-	}
+	// an INVITE or SUBSCRIBE that initializes a dialog has no To tag yet, so
+	// GetDialog fails for it; one that carries both tags (re-INVITE, refresh
+	// SUBSCRIBE) belongs to an existing dialog like any other request
 	dialog, err := msg.GetDialog()
 
 	if err != nil {
